@@ -49,6 +49,7 @@ pub mod num {
     #[verifier::external_body]
     pub fn one<F: Float>() -> (r: F) ensures r == F::one_spec() { unimplemented!() }
     pub trait Zero {}
+    pub use super::ToPrimitive;
 }
 // integer side (num::Integer + Bounded + ToPrimitive + FromPrimitive as the crate uses them)
 pub trait Integer: Sized + Copy + PartialOrd + PartialEq {
